@@ -9,7 +9,7 @@ RULE = ('generated charts on plain, instrumented, queued and active-object hosts
         'path; a TWIN chart driven with the same script but never queried must produce the same ground-truth logs, rest states, spy and '
         'trace (so the queries changed nothing). distinct_nontrivial = distinct (host config, current depth, query kind, answer) tuples')
 CASES = {'quick': 1500, 'thorough': 100000}
-BUDGET = {'quick': 40, 'thorough': 900}
+BUDGET = {'quick': 40, 'thorough': 300}
 REQUIRE = {'is_in_queries': 20000, 'child_state_queries': 20000, 'child_state_off_path': 2000, 'twin_comparisons': 1000}
 ASSUME = ['queries are issued between steps only (the statement quantifies there); on active objects while the object is idle']
 CFGS = [{'host': 'plain', 'spied': False}, {'host': 'plain', 'spied': True}, {'host': 'instr', 'spied': True},
